@@ -492,6 +492,8 @@ def mat_attr(it, m: Mat, name):  # noqa: F811
         from .interp import PyFunc
 
         return PyFunc(lambda it_, *shape: mat_resize(it_, m, shape), "spmatrix.resize")
+    if name == "indptr" and m.fmt == "csc":
+        return csc_indptr(it, m)
     if name in ("indices", "indptr") or (name == "data" and m.fmt == "csr" and m.coo is None):
         raw = csr_raw(it, m)
         return raw[name]
@@ -599,6 +601,33 @@ def csr_raw(it, m: Mat):
     raw["link"] = link
     m.entry = entry
     return raw
+
+
+def csc_indptr(it, m: Mat):
+    """the column pointer array of a csc matrix, READ-ONLY view: monotone, 0 .. nnz, and an empty column range means
+    that the column holds no stored entry (all its entries are zero).  The entry function of the matrix is kept."""
+    got = getattr(m, "csc_ptr", None)
+    if got is not None:
+        return got
+    from .core import UFact
+
+    p = it.path
+    rows, cols = _iv(m.rows), _iv(m.cols)
+    nnz = p.int("csc_nnz")
+    p.assume(nnz >= 0)
+    A = z3.Array(p.fresh_name("csc_indptr"), z3.IntSort(), z3.IntSort())
+    ptr0 = Vec(cols + 1, lambda i: z3.Select(A, p.auto_index(i, cols + 1)), "int", arr=A, name="csc_indptr")
+    p.index_term(z3.IntVal(0), cols + 1)
+    p.index_term(cols, cols + 1)
+    p.assume(ptr0.f(0) == 0)
+    p.assume(ptr0.f(cols) == nnz)
+    p.add_ufact(UFact(1, lambda c: z3.And(ptr0.f(c) >= 0, ptr0.f(c) <= ptr0.f(c + 1), ptr0.f(c + 1) <= nnz), [(0, cols)], "csc:indptr_monotone"))
+    e = entry_fn(it, m)
+    p.add_ufact(UFact(2, lambda r, c: z3.Implies(ptr0.f(c) == ptr0.f(c + 1), ops._real(e(r, c)) == 0), [(0, rows), (0, cols)], "csc:empty_column_range=>column_is_zero"))
+    arr = Arr.new(ptr0, dtype="int")
+    arr.cell.writeable = False
+    m.csc_ptr = arr
+    return arr
 
 
 def mat_resize(it, m: Mat, shape):
